@@ -26,15 +26,15 @@ def real_documenter(settings=None, title="T", module_name="m"):
     return D.Documenter("x.cmake", title, module_name, settings if settings is not None else Settings())
 
 
-def real_walk(doc, cmds, module_block=None, lines=None):
-    tree = hc.file_ctx([(c[0], c[2], c[3]) for c in cmds], module_doc=module_block, lines=lines)
+def real_walk(doc, cmds, module_block=None, lines=None, argpos=None):
+    tree = hc.file_ctx([(c[0], c[2], c[3]) for c in cmds], module_doc=module_block, lines=lines, argpos=argpos)
     ParseTreeWalker().walk(doc.aggregator, tree)
     return doc.aggregator
 
 
-def real_page(cmds, settings=None, title="T", module_name="m", module_block=None, lines=None):
+def real_page(cmds, settings=None, title="T", module_name="m", module_block=None, lines=None, argpos=None):
     doc = real_documenter(settings, title, module_name)
-    real_walk(doc, cmds, module_block, lines)
+    real_walk(doc, cmds, module_block, lines, argpos)
     doc.process_docs(doc.aggregator.documented)
     return doc.writer.to_text()
 
